@@ -202,3 +202,22 @@ def constructive(rng, case, idx):
             w.do('Container.create_solution_from', dict(step, q=qbad, infeasible='beyond_stock'),
                  lambda: C.create_solution_from(stock, solute, conc, solv_obj, qbad),
                  expect={'op': 'Container.create_solution_from', 'must': 'refuse', 'tag': 'beyond_stock'})
+
+
+# --------------------------------------------------------------------------------------------------
+# directed edge workloads shared between several checks (pv/edges.py)
+
+_plan_without_edges, _run_job_without_edges = plan, run_job
+
+
+def plan(tier, seed):
+    from .common import edges_jobs
+    return _plan_without_edges(tier, seed) + edges_jobs(tier)
+
+
+def run_job(job):
+    if job['kind'] == 'edges':
+        from pv.edges import edges
+        from .common import run_cases
+        return run_cases(job, edges)
+    return _run_job_without_edges(job)
